@@ -449,17 +449,22 @@ pub(crate) fn run_scheduling_solver(
             let v_id = ResourceVariantId::new(0);
             let n_nodes = rqv.get(v_id).n_nodes() as usize;
             let mut ws: Vec<ThinVec<WorkerId>> = Vec::new();
+            // Index (in `ws`) of the last placement opened for each worker group;
+            // a placement must never mix workers of different groups
+            let mut group_last: Map<&str, usize> = Map::new();
             for worker in &workers {
                 if let Some(v) = placements.get(&(worker.id, resource_rq_id, v_id)) {
                     let count = solution.get_value(*v).round() as u32;
                     if count > 0 {
-                        if let Some(last) = ws.last_mut()
+                        let group_name = worker.configuration.group.as_str();
+                        if let Some(last) = group_last.get(group_name).map(|idx| &mut ws[*idx])
                             && last.len() < n_nodes
                         {
                             last.push(worker.id);
                         } else {
                             let mut workers = ThinVec::with_capacity(n_nodes);
                             workers.push(worker.id);
+                            group_last.insert(group_name, ws.len());
                             ws.push(workers);
                         }
                     }
